@@ -102,7 +102,8 @@ def cases(tier, seed):
     for kind in ('row', 'col', 'diag'):
         for cont in ('list', 'dict', 'nest', 'tuple'):
             for ar in (1, 2, 3):
-                blocks = tuple(('leaf', n, i) for i, n in enumerate(['A', 'D', 'k'][:ar]))
+                pool = {'row': ['A', 'V', 'D'], 'col': ['A', 'W', 'P'], 'diag': ['W', 'A', 'P']}[kind]
+                blocks = tuple(('leaf', n, i) for i, n in enumerate((pool * 2)[3 - ar:3] if ar < 3 else pool))
                 out.append(('struct', 'vec', (kind, cont, blocks), ('f32', False)))
                 out.append(('struct', 'vec', ('T', (kind, cont, blocks)), ('f64', True)))
     out.append(('custom',))
